@@ -214,7 +214,8 @@ func (h) Gen(r *hlib.Rand, tier string, scale int, emit func(string)) {
 			vals = append(vals, f)
 		}
 	}
-	vals = append(vals, math.Float64bits(math.Inf(1)), math.Float64bits(math.Inf(-1)))
+	vals = append(vals, math.Float64bits(math.Inf(1)), math.Float64bits(math.Inf(-1)), math.Float64bits(math.Copysign(0, -1)), 0,
+		math.Float64bits(-math.SmallestNonzeroFloat64), math.Float64bits(-5), math.Float64bits(-1e10))
 	vs := make([]string, len(vals))
 	for i, v := range vals {
 		vs[i] = hx(v)
